@@ -292,7 +292,32 @@ type odtCase struct {
 	shape []string
 }
 
-func buildOdt(alpha []odtKind, seq []int, o odtOpt, layout string) odtCase {
+// odtColLayouts: how an ODT table declares its columns (table:table-column elements). The grid a
+// reader reports must not depend on it. "rep" = one declaration repeated for all columns,
+// "each" = one declaration per column, "rep+1" / "1+rep" = a repeated declaration followed /
+// preceded by a single one (what LibreOffice writes when the last / first column has another
+// width), "rep+rep" = two repeated declarations. (No declaration at all is not valid ODF 1.2.)
+var odtColLayouts = []string{"rep", "each", "rep+1", "1+rep", "rep+rep"}
+
+func colDecl(layout string, n int) []int {
+	switch {
+	case layout == "rep" || n < 2:
+		return nil
+	case layout == "each":
+		d := make([]int, n)
+		for i := range d {
+			d[i] = 1
+		}
+		return d
+	case layout == "rep+1":
+		return []int{n - 1, 1}
+	case layout == "1+rep":
+		return []int{1, n - 1}
+	}
+	return []int{(n + 1) / 2, n / 2}
+}
+
+func buildOdt(alpha []odtKind, seq []int, o odtOpt, layout, cols string) odtCase {
 	g := &gen{}
 	var c odtCase
 	fs := map[string]bool{}
@@ -305,6 +330,12 @@ func buildOdt(alpha []odtKind, seq []int, o odtOpt, layout string) odtCase {
 		}
 		c.doc.Body = append(c.doc.Body, bs...)
 		c.x.blocks = append(c.x.blocks, xs...)
+	}
+	for i, b := range c.doc.Body {
+		if t, ok := b.(odtw.Table); ok {
+			t.ColDecl = colDecl(cols, t.Cols)
+			c.doc.Body[i] = t
+		}
 	}
 	auto := []odtw.Style{
 		{Name: "P1", Parent: "Heading_20_2", Italic: true},
